@@ -1178,7 +1178,7 @@ impl Hist {
             }
             49 => {
                 // locking and what a locked position may still do
-                let follow = r.pick(&["none", "dec", "close", "reset", "repo", "inc", "cf", "xfer", "lock2"]);
+                let follow = r.pick(&["none", "dec", "close", "reset", "repo", "inc", "cf", "xfer", "lock2", "xferm", "xfers", "xferl"]);
                 let withliq: Vec<u32> = ids.iter().copied().filter(|i| w.pos(*i).map(|q| q.liquidity > 0).unwrap_or(false)).collect();
                 let id = if !withliq.is_empty() && r.chance(4, 5) { r.pick(&withliq) } else { id };
                 format!("H xlock {} {} {}", id, r.pick(&[0u8, 0, 0, 0, 0, 0, 0, 1, 2, 3, 4, 5]), follow)
